@@ -1,7 +1,10 @@
 import Ptn.C05.Core
 import Ptn.C05.Tree
+import Ptn.C05.Discipline
 /-! Property theorems for C05.  `Core.lean`: duration totals of the three schedules for arbitrary
 segment lists (per segment edge, under the hypotheses `Nodup` / last-two-adjacent).  `Tree.lean`:
 the same totals for every well-formed tree with the segments computed from the C17 model of the
 update path (`first_order_tree`, `second_order_tree`, `two_site_tree`) — no hypothesis about the
-segments left: every node of the tree, every edge of the tree. -/
+segments left: every node of the tree, every edge of the tree.  `Discipline.lean`: the cache-freshness
+discipline — in every one of the three sweeps, on every well-formed tree, no local update or block
+rebuild ever reads a stale environment block (`reads_fresh_*`, `discipline_invariant`). -/
